@@ -75,6 +75,11 @@ func c19Gen(t *rapid.T) C19Case {
 			n = rapid.IntRange(4, 14).Draw(t, "steps0")
 		}
 		for i := 0; i < n; i++ {
+			if rapid.IntRange(0, 5).Draw(t, "intx") == 0 {
+				// the same change made by a transaction
+				c.Steps = append(c.Steps, kit.A("MULTI"), kit.A(c19Cmd(t)...), kit.A("EXEC"))
+				continue
+			}
 			c.Steps = append(c.Steps, kit.A(c19Cmd(t)...))
 		}
 		c.Steps = append(c.Steps, kit.A("@RESTART"))
